@@ -177,11 +177,67 @@ pub fn specs(thorough: bool) -> Vec<BigSpec> {
     v
 }
 
+/// volumes made by the crate's own formatter at large sizes (zero-fill is elided by the sparse device)
+fn formatted(thorough: bool) -> Vec<(String, Image, u64)> {
+    let mut v = Vec::new();
+    let mut list: Vec<(u16, u32, Option<u32>)> = vec![(512, 1 << 24, None), (4096, 1 << 23, Some(32768))];
+    if thorough {
+        list.extend([(512, u32::MAX, Some(32768)), (512, 1 << 31, None), (4096, u32::MAX, Some(524_288)), (512, 300_000_000, Some(2048))]);
+    }
+    for (bps, total, bpc) in list {
+        let mut o = crate::modes::c06::FOpts::default_for(total);
+        o.bps = bps;
+        o.bpc = bpc;
+        if let (crate::modes::c06::FResult::Ok(img), _) = crate::modes::c06::do_format(&o, false, 4096) {
+            v.push((format!("format_volume bps{} sectors{:#x} cluster{:?}", bps, total, bpc), img, u64::from(total) * u64::from(bps)));
+        }
+    }
+    v
+}
+
 pub fn run(args: &Args, rep: &mut Report) {
     let seed = args.u64("seed", 1);
     let (shard, nshards) = args.shard();
     let thorough = args.str("tier", "quick") == "thorough";
     let mut n = 0u64;
+    // ---- formatter-made large volumes: same scripted history
+    if shard == nshards - 1 {
+        for (label, img, vol_bytes) in formatted(thorough) {
+            let Ok(g) = fatck::geo_of(&img) else {
+                rep.viol("C20", "C20|formatted-volume-unparseable", "geometry", &format!("{}: independent parse failed", label), J::obj().set("argv", J::arr_of_str(vec!["c20"])));
+                continue;
+            };
+            let cs = g.cluster_size as usize;
+            let mut scfg = SessCfg::all(unicode_build());
+            scfg.props = ["C01", "C02", "C03", "C04", "C05", "C10", "C11", "C20"].into_iter().collect();
+            scfg.budget = Some(3_000_000_000);
+            let ops = vec![
+                Op::CreateFile { dir: DirRef::Root, path: "on a formatted big volume.bin".into(), slot: Some(0) },
+                Op::Write { h: 0, len: cs + 1 },
+                Op::Write { h: 0, len: cs },
+                Op::Flush { h: 0 },
+                Op::Seek { h: 0, whence: 0, off: 1 },
+                Op::Read { h: 0, len: cs },
+                Op::Close { h: 0 },
+                Op::Stats,
+                Op::Remount { how: 0 },
+                Op::CreateDir { dir: DirRef::Root, path: "d".into(), slot: None },
+                Op::Rename { sdir: DirRef::Root, src: "on a formatted big volume.bin".into(), ddir: DirRef::Root, dst: "d/moved.bin".into() },
+                Op::Remove { dir: DirRef::Root, path: "d/moved.bin".into() },
+            ];
+            let mut src = VecSource::new(ops);
+            let o = run_session(&scfg, &img, vol_bytes, fnv_of(&[&label]), &mut src);
+            rep.evaluations += o.counters.api_calls;
+            rep.count("formatted_volumes", 1);
+            for d in &o.distinct {
+                rep.distinct.insert(*d);
+            }
+            if let Some(v) = o.violation {
+                let d = format!("[{}] {}", label, v.detail);
+                rep.viol("C20", &format!("C20|{}", v.sig), &v.rule, &d, J::obj().set("argv", J::arr_of_str(vec!["c20"])).set("volume", J::s(label.clone())).set("ops", crate::ops::ops_json(&o.history)).set("detail", J::s(d.clone())));
+            }
+        }
+    }
     for spec in specs(thorough) {
         n += 1;
         if n % nshards != shard {
